@@ -150,6 +150,25 @@ def library_constant(dotted: str):
     return True, copy.deepcopy(v)
 
 
+def _unpacked_targets(target: ast.expr, value: ast.expr):
+    """(name, expression) for every name an assignment binds: `x = e`; `a, b = 1, 2` binds each name to its element; a tuple
+    target fed from something else binds each name to `(e)[i]`"""
+    if isinstance(target, ast.Name):
+        yield target.id, value
+    elif isinstance(target, (ast.Tuple, ast.List)) and not any(isinstance(e, ast.Starred) for e in target.elts):
+        if isinstance(value, (ast.Tuple, ast.List)) and len(value.elts) == len(target.elts) and not any(isinstance(e, ast.Starred) for e in value.elts):
+            for t_, v_ in zip(target.elts, value.elts):
+                for pair in _unpacked_targets(t_, v_):
+                    yield pair
+        else:
+            for i_, t_ in enumerate(target.elts):
+                sub_ = ast.Subscript(value=value, slice=ast.Constant(value=i_), ctx=ast.Load())
+                ast.copy_location(sub_, value)
+                ast.copy_location(sub_.slice, value)
+                for pair in _unpacked_targets(t_, sub_):
+                    yield pair
+
+
 def decorator_name(d: ast.expr) -> str:
     if isinstance(d, ast.Call):
         d = d.func
@@ -295,6 +314,7 @@ class Program(object):
         for m in self.modules.values():
             self._resolve_bases(m)
         self._classify_descriptors()
+        self._classify_binding_decorators()
 
     def _classify_descriptors(self):
         """methods decorated with a descriptor class of the code base: how that class keeps the value (descriptor_kind)"""
@@ -314,6 +334,38 @@ class Program(object):
                         k = descriptor_kind(self, dv)
                         if k in ("name-keyed-instance", "per-descriptor-instance", "uncached-instance", "class-level", "class-level-cached"):
                             raw.descriptor_kinds = [(dv.qualname, k)]
+
+    def _classify_binding_decorators(self):
+        """methods decorated with a function of the code base that hands back `classmethod(wrapper)` / `staticmethod(wrapper)`:
+        bound like a classmethod / staticmethod although not spelled so where they are defined"""
+        for m in self.modules.values():
+            for ci in m.classes.values():
+                for raw in ci.attrs.values():
+                    if not isinstance(raw, FuncInfo) or not raw.node.decorator_list or "classmethod" in raw.decorators or "staticmethod" in raw.decorators:
+                        continue
+                    d = raw.node.decorator_list[0]
+                    try:
+                        dv = self.resolve_expr(m, d.func if isinstance(d, ast.Call) else d)
+                    except Exception:
+                        continue
+                    if not isinstance(dv, FuncInfo):
+                        continue
+                    fn = dv.node
+                    if isinstance(d, ast.Call):
+                        # a decorator factory: what its inner decorator returns
+                        inner = [n for n in fn.body if isinstance(n, ast.FunctionDef)]
+                        rets = [n for n in fn.body if isinstance(n, ast.Return)]
+                        if len(inner) != 1 or not (rets and isinstance(rets[-1].value, ast.Name) and rets[-1].value.id == inner[0].name):
+                            continue
+                        fn = inner[0]
+                    rets = [n for n in ast.walk(fn) if isinstance(n, ast.Return) and n.value is not None
+                            and not any(n in list(ast.walk(x)) for x in fn.body if isinstance(x, (ast.FunctionDef, ast.Lambda)))]
+                    kinds = {n.value.func.id for n in rets if isinstance(n.value, ast.Call) and isinstance(n.value.func, ast.Name)
+                             and n.value.func.id in ("classmethod", "staticmethod") and len(n.value.args) == 1}
+                    if rets and len(kinds) == 1 and all(isinstance(n.value, ast.Call) and isinstance(n.value.func, ast.Name)
+                                                        and n.value.func.id in kinds for n in rets):
+                        raw.decorators = list(raw.decorators) + [kinds.pop()]
+                        raw.bound_by_decorator = True
 
     # -- discovery ----------------------------------------------------------
 
@@ -361,11 +413,18 @@ class Program(object):
             ci.decorators = [decorator_name(d) for d in node.decorator_list]
             for st in node.body:
                 if isinstance(st, ast.FunctionDef):
+                    acc = [d for d in st.decorator_list if isinstance(d, ast.Attribute) and d.attr in ("setter", "deleter")
+                           and isinstance(d.value, ast.Name) and d.value.id == st.name]
+                    prev = ci.attrs.get(st.name)
+                    if acc and isinstance(prev, FuncInfo):
+                        # @x.setter / @x.deleter: the property keeps its getter; the accessor is attached to it
+                        setattr(prev, acc[0].attr, FuncInfo(m, st, ci))
+                        continue
                     ci.attrs[st.name] = FuncInfo(m, st, ci)
                 elif isinstance(st, ast.Assign):
                     for t in st.targets:
-                        if isinstance(t, ast.Name):
-                            ci.attrs[t.id] = st.value
+                        for nm_, val_ in _unpacked_targets(t, st.value):
+                            ci.attrs[nm_] = val_
                 elif isinstance(st, ast.AnnAssign) and isinstance(st.target, ast.Name) and st.value is not None:
                     ci.attrs[st.target.id] = st.value
             m.classes[node.name] = ci
@@ -376,18 +435,8 @@ class Program(object):
             m.bindings[node.name] = fi
         elif isinstance(node, ast.Assign):
             for t in node.targets:
-                if isinstance(t, ast.Name):
-                    m.assigns[t.id] = node.value
-                elif isinstance(t, (ast.Tuple, ast.List)) and all(isinstance(x, ast.Name) for x in t.elts):
-                    # A, B = x, y   /   A, B = some_pair
-                    for i, x in enumerate(t.elts):
-                        if isinstance(node.value, (ast.Tuple, ast.List)) and len(node.value.elts) == len(t.elts):
-                            m.assigns[x.id] = node.value.elts[i]
-                        else:
-                            sub = ast.Subscript(value=node.value, slice=ast.Constant(value=i), ctx=ast.Load())
-                            ast.copy_location(sub, node.value)
-                            ast.fix_missing_locations(sub)
-                            m.assigns[x.id] = sub
+                for nm_, val_ in _unpacked_targets(t, node.value):
+                    m.assigns[nm_] = val_
         elif isinstance(node, ast.AnnAssign) and isinstance(node.target, ast.Name) and node.value is not None:
             m.assigns[node.target.id] = node.value  # NAME: annotation = value
         elif isinstance(node, ast.If):
@@ -592,6 +641,40 @@ class Program(object):
         # object last, once
         self._mro_cache[key] = res
         return res
+
+    ENUM_BASES = ("enum.Enum", "enum.IntEnum", "enum.Flag", "enum.IntFlag", "enum.StrEnum")
+
+    def enum_info(self, ci) -> Optional[dict]:
+        """None, or what makes `ci` an enumeration: {"mixin": "str" | "int" | None, "flag": bool, "members": [(name, expr)]}
+        with the member definitions of the class body in order (a subclass of an Enum with members cannot exist)"""
+        if not isinstance(ci, ClassInfo):
+            return None
+        cached = getattr(ci, "_enum_info", False)
+        if cached is not False:
+            return cached
+        info = None
+        exts = [getattr(c, "dotted", "") for c in self.mro(ci) if isinstance(c, Ext)]
+        if any(d in self.ENUM_BASES for d in exts):
+            mixin = None
+            if "enum.StrEnum" in exts or "builtins.str" in exts or "str" in exts:
+                mixin = "str"
+            elif "enum.IntEnum" in exts or "enum.IntFlag" in exts or "builtins.int" in exts or "int" in exts:
+                mixin = "int"
+            members = []
+            holder = next((c for c in self.mro(ci) if isinstance(c, ClassInfo) and any(
+                isinstance(v, ast.AST) and not k.startswith("_") for k, v in c.attrs.items())), None)
+            if holder is not None:
+                ignore = set()
+                ign = holder.attrs.get("_ignore_")
+                if isinstance(ign, (ast.List, ast.Tuple)):
+                    ignore = {e.value for e in ign.elts if isinstance(e, ast.Constant)}
+                for k, v in holder.attrs.items():
+                    if isinstance(v, ast.AST) and not k.startswith("_") and k not in ignore and not isinstance(v, (ast.FunctionDef, ast.Lambda)):
+                        members.append((k, v))
+            info = {"mixin": mixin, "flag": "enum.Flag" in exts or "enum.IntFlag" in exts, "str_enum": "enum.StrEnum" in exts,
+                    "members": members, "holder": holder}
+        ci._enum_info = info
+        return info
 
     def is_subclass(self, ci: ClassInfo, other: Union[ClassInfo, str]) -> bool:
         for c in self.mro(ci):
